@@ -132,6 +132,28 @@ def run(ctx):
                         viol('uint/oversize-accepted', 'write_uint(%d, %d) accepted' % (top + 1, n), case)
                     except Exception:
                         ctx.count('refusals')
+                    # a refused write leaves the writer as it was: position, and what is written next
+                    try:
+                        w = get_bit_writer()
+                        w.write_bin(g0 + '1')
+                        p0 = w.get_pos()
+                        for badv in (top + 1, -1):
+                            try:
+                                w.write_uint(badv, n)
+                            except Exception:
+                                pass
+                        # (write_int is left out: the library writes the sign bit before it refuses the magnitude - what a
+                        # writer holds after a refusal is not part of the statement, so this probe is ADVISORY)
+                        p1 = w.get_pos()
+                        w.write_uint(v, n)
+                        model = finish(w, g0 + '1' + ubits(v, n))
+                        ctx.count('state_after_refusal_checks')
+                        if p1 != p0 or w.to_bytes() != tobytes(model):
+                            ctx.violate('probe/refused-write-leaves-trace', 'after refused write_uint calls of width %d the writer moved from bit '
+                                        '%d to %d / the next field is not where it belongs' % (n, p0, p1), case, advisory=True)
+                    except Exception as e:
+                        ctx.violate('probe/refused-write-leaves-trace/exception:%s' % type(e).__name__,
+                                    'writer unusable after a refused write: %r' % (e,), case, advisory=True)
                     try:
                         w = get_bit_writer()
                         w.write_uint(-1, n)
